@@ -95,3 +95,62 @@ where
 pub fn spawn_blocking_detached<F: FnOnce() + Send + 'static>(f: F) {
     let _ = spawn_pool_task("blocking", false, f);
 }
+
+
+/// tokio::spawn: an async task on the simulator's executor.
+pub fn spawn<F>(future: F) -> JoinHandle<F::Output>
+where
+    F: Future + Send + 'static,
+    F::Output: Send + 'static,
+{
+    use std::sync::{Arc, Mutex};
+    let slot: SharedSlot<F::Output> = Arc::new(Mutex::new(simkit::exec::Slot { value: None, waker: None, task_id: 0 }));
+    let slot2 = slot.clone();
+    let wrapped = async move {
+        let r = CatchUnwind { fut: Box::pin(future) }.await;
+        let waker = {
+            let mut g = slot2.lock().unwrap();
+            g.value = Some(r);
+            g.waker.take()
+        };
+        if let Some(w) = waker {
+            w.wake();
+        }
+    };
+    let id = simkit::exec::spawn_async(Box::pin(wrapped));
+    slot.lock().unwrap().task_id = id;
+    JoinHandle { slot }
+}
+
+struct CatchUnwind<T> {
+    fut: Pin<Box<dyn Future<Output = T> + Send>>,
+}
+
+impl<T> Future for CatchUnwind<T> {
+    type Output = Result<T, String>;
+    fn poll(mut self: Pin<&mut Self>, cx: &mut Context<'_>) -> Poll<Self::Output> {
+        let fut = &mut self.fut;
+        match std::panic::catch_unwind(std::panic::AssertUnwindSafe(|| fut.as_mut().poll(cx))) {
+            Ok(Poll::Ready(v)) => Poll::Ready(Ok(v)),
+            Ok(Poll::Pending) => Poll::Pending,
+            Err(p) => Poll::Ready(Err(p.downcast_ref::<&str>().map(|s| s.to_string()).or_else(|| p.downcast_ref::<String>().cloned()).unwrap_or_else(|| "panic".into()))),
+        }
+    }
+}
+
+/// tokio::task::yield_now
+pub async fn yield_now() {
+    struct YieldNow(bool);
+    impl Future for YieldNow {
+        type Output = ();
+        fn poll(mut self: Pin<&mut Self>, cx: &mut Context<'_>) -> Poll<()> {
+            if self.0 {
+                return Poll::Ready(());
+            }
+            self.0 = true;
+            cx.waker().wake_by_ref();
+            Poll::Pending
+        }
+    }
+    YieldNow(false).await
+}
